@@ -1131,6 +1131,16 @@ func (w *world) checkQuiet() {
 				setWedgeSeen()
 				w.fail("node %s was refiltered to the accept-nothing filter filter.All() but its cache still holds %v", n.path(), gk)
 			}
+			if w.cfg.checkReady {
+				// became ready under filter.All(): the listing taken at Ready must be empty as well
+				n.mu.Lock()
+				set, checked, at := n.atReadySet, n.atReadyChecked, n.atReady
+				n.atReadyChecked = n.atReadyChecked || set
+				n.mu.Unlock()
+				if set && !checked && len(at) != 0 {
+					w.fail("node %s: Cache().List() taken at the instant Ready() was observed returned %v, the synced content under filter.All() is empty", n.path(), at)
+				}
+			}
 			n.baseline = false // its stream is not synchronised with the barriers: re-baseline once it sees markers again
 			n.rebased = true
 			n.mu.Lock()
